@@ -623,8 +623,45 @@ def _mk_model(mkind, i, n_cond, seed, name=None, vals='plain'):
     return cls(name, rdm)
 
 
+def _mk_result_via(case):
+    """a Result as the library's own evaluation routines produce it (some of them fill in n_rdm / n_pattern AFTER the variance
+    corrections were applied): small seeded data, two or three fixed models"""
+    import contextlib
+    import io
+    import rsatoolbox.inference as inf
+    from rsatoolbox.rdm import RDMs
+    from rsatoolbox.model import ModelFixed
+    rs = np.random.RandomState(100 + case.get('seed', 0))
+    n_rdm, n_cond, n_model = case.get('n_rdm', 6), case.get('n_cond', 5), case['n_model']
+    n_pair = n_cond * (n_cond - 1) // 2
+    data = RDMs(rs.rand(n_rdm, n_pair) + 0.1, rdm_descriptors={'subj': ['s%d' % (i // 2) for i in range(n_rdm)]},
+                pattern_descriptors={'stim': ['c%d' % i for i in range(n_cond)]})
+    models = [ModelFixed('m%d' % i, rs.rand(n_pair) + 0.1) for i in range(n_model)]
+    np.random.seed(case.get('seed', 0) + 7)
+    via = case['via']
+    with contextlib.redirect_stderr(io.StringIO()), warnings.catch_warnings():
+        warnings.simplefilter('ignore')
+        if via == 'eval_fixed':
+            return inf.eval_fixed(models, data, method=case.get('method', 'corr'))
+        if via == 'eval_bootstrap':
+            return inf.eval_bootstrap(models, data, method=case.get('method', 'corr'), N=12)
+        if via == 'eval_bootstrap_rdm':
+            return inf.eval_bootstrap_rdm(models, data, method=case.get('method', 'corr'), N=12)
+        if via == 'eval_bootstrap_rdm,grouped':
+            return inf.eval_bootstrap_rdm(models, data, method=case.get('method', 'corr'), N=12, rdm_descriptor='subj')
+        if via == 'eval_bootstrap_pattern':
+            return inf.eval_bootstrap_pattern(models, data, method=case.get('method', 'corr'), N=12)
+        if via == 'bootstrap_crossval':
+            big = RDMs(rs.rand(6, 66) + 0.1)
+            return inf.bootstrap_crossval([ModelFixed('m%d' % i, rs.rand(66) + 0.1) for i in range(n_model)], big, N=6, k_pattern=2,
+                                          k_rdm=2, method=case.get('method', 'corr'))
+    raise ValueError(via)
+
+
 def _mk_result(case):
     from rsatoolbox.inference import Result
+    if case.get('via'):
+        return _mk_result_via(case)
     n_model, n_cond, seed = case['n_model'], case.get('n_cond', 4), case.get('seed', 0)
     rs = np.random.RandomState(seed)
     kinds = case.get('model_kinds', ['fixed'])
@@ -1863,6 +1900,12 @@ def tier_c(run, thorough):
         for target in TARGETS_X:
             bd.check(orc_result, dict(n_model=3, model_kinds=mixes[1], variances='2d-nc', n_rdm=8, n_pattern=4, fmt=fmt, target=target,
                                       seed=4, names=['über', 'm']), 'path-spelling', function='result_from_dict')
+        # Results as the evaluation routines themselves produce them
+        for k, via in enumerate(('eval_fixed', 'eval_bootstrap', 'eval_bootstrap_rdm', 'eval_bootstrap_rdm,grouped', 'eval_bootstrap_pattern',
+                                 'bootstrap_crossval')):
+            for method in (('corr', 'cosine') if thorough else ('corr',)):
+                bd.check(orc_result, dict(via=via, n_model=2 + k % 2, method=method, fmt=fmt, target=('path', 'bytesio')[k % 2], seed=k,
+                                          twice=True), 'result-of-' + via.split(',')[0], function='result_from_dict')
     bd.done()
     bds.append(bd)
 
